@@ -89,8 +89,7 @@ Proof.
 Qed.
 
 (* ---------- the field list that is written *)
-Definition h1_fields (r : h2_request) (es : bool) : headers := rq_headers (fst (h1_of_h2_request r es)).
-Definition h1_chunked (r : h2_request) (es : bool) : bool := snd (h1_of_h2_request r es).
+Definition h1_fields (r : h2_request) : headers := rq_headers (h1_of_h2_request r).
 
 Definition cookie_guard (h : headers) : Prop :=
   match get_all N_COOKIE h with (_ :: _ :: _) as l => last l [] <> [] | _ => True end.
@@ -152,7 +151,6 @@ Qed.
 
 Section Fields.
   Variable r : h2_request.
-  Variable es : bool.
   Hypothesis F0 : Forall fieldok (hq_fields r).
   Hypothesis NoTE : get_all TRANSFER_ENCODING (hq_fields r) = [].
   Hypothesis AuthOk : hq_authority r = [] \/ h2_value_ok (hq_authority r) = true.
@@ -160,12 +158,7 @@ Section Fields.
   Let h0 := hq_fields r.
   Let h1 := if negb (hcontains N_HOST_CAP h0) && match hq_authority r with [] => false | _ => true end
             then (N_HOST_CAP, hq_authority r) :: h0 else h0.
-  Let chunked := negb es && negb (hcontains CONTENT_LENGTH h1) && negb (hcontains TRANSFER_ENCODING h1).
-  Let h2 := if chunked then hset N_TE_CAP CHUNKED h1 else h1.
-  Let h3 := match get_all N_COOKIE h2 with _ :: _ :: _ => hset N_COOKIE (join_semi (get_all N_COOKIE h2)) h2 | _ => h2 end.
-
-  Lemma h1_fields_eq : h1_fields r es = h3 /\ h1_chunked r es = chunked.
-  Proof. split; reflexivity. Qed.
+  Let h3 := match get_all N_COOKIE h1 with _ :: _ :: _ => hset N_COOKIE (join_semi (get_all N_COOKIE h1)) h1 | _ => h1 end.
 
   Definition fok2 (f : header) : Prop := is_token (fst f) = true /\ h2_value_ok (snd f) = true.
 
@@ -178,7 +171,6 @@ Section Fields.
     destruct AuthOk as [X|X]; [|exact X]. rewrite X in E. rewrite andb_false_r in E. discriminate.
   Qed.
 
-  (* filtering by a name other than host / transfer-encoding / cookie sees the original fields *)
   Lemma filter_h1 k : k <> N_HOST -> filter (name_ci k) h1 = filter (name_ci k) h0.
   Proof.
     intros N. subst h1. destruct (negb (hcontains N_HOST_CAP h0) && match hq_authority r with [] => false | _ => true end); [|reflexivity].
@@ -187,106 +179,39 @@ Section Fields.
     apply bytes_eqb_eq in E. exfalso. apply N. rewrite <- E. reflexivity.
   Qed.
 
-  Lemma te_h1 : filter (name_ci TRANSFER_ENCODING) h1 = [].
-  Proof.
-    rewrite filter_h1 by discriminate. fold h0 in NoTE. rewrite get_all_filter in NoTE.
-    change (lower TRANSFER_ENCODING) with TRANSFER_ENCODING in NoTE.
-    destruct (filter (name_ci TRANSFER_ENCODING) h0); [reflexivity|discriminate].
-  Qed.
+  Lemma cookies_h1 : get_all N_COOKIE h1 = get_all N_COOKIE h0.
+  Proof. rewrite !get_all_filter. change (lower N_COOKIE) with N_COOKIE. rewrite filter_h1 by discriminate. reflexivity. Qed.
 
-  Lemma chunked_eq : chunked = negb es && negb (hcontains CONTENT_LENGTH h0).
+  Lemma filter_h3_gen k : k <> N_COOKIE -> filter (name_ci k) h3 = filter (name_ci k) h1.
   Proof.
-    subst chunked. unfold hcontains at 2. rewrite get_all_filter. change (lower TRANSFER_ENCODING) with TRANSFER_ENCODING.
-    rewrite te_h1. cbn [map negb]. rewrite andb_true_r. f_equal. f_equal.
-    unfold hcontains. rewrite !get_all_filter. change (lower CONTENT_LENGTH) with CONTENT_LENGTH.
-    rewrite filter_h1 by discriminate. reflexivity.
-  Qed.
-
-  Lemma h2_eq : h2 = if chunked then h1 ++ [(N_TE_CAP, CHUNKED)] else h1.
-  Proof.
-    subst h2. destruct chunked; [|reflexivity]. unfold hset. change (lower N_TE_CAP) with TRANSFER_ENCODING.
-    rewrite (hset_go_none _ _ _ te_h1). reflexivity.
-  Qed.
-
-  Lemma h2_ok : Forall fok2 h2.
-  Proof.
-    rewrite h2_eq. destruct chunked; [|exact h1_ok]. apply Forall_app. split; [exact h1_ok|].
-    constructor; [split; reflexivity | constructor].
-  Qed.
-
-  Lemma filter_h2 k : k <> N_HOST -> filter (name_ci k) h2
-    = filter (name_ci k) h0 ++ (if chunked then filter (name_ci k) [(N_TE_CAP, CHUNKED)] else []).
-  Proof.
-    intros N. rewrite h2_eq. destruct chunked; [rewrite filter_app|rewrite app_nil_r]; rewrite filter_h1 by exact N; reflexivity.
-  Qed.
-
-  Lemma cookies_h2 : get_all N_COOKIE h2 = get_all N_COOKIE h0.
-  Proof.
-    rewrite !get_all_filter. change (lower N_COOKIE) with N_COOKIE. rewrite filter_h2 by discriminate.
-    destruct chunked; [cbn; rewrite app_nil_r|rewrite app_nil_r]; reflexivity.
-  Qed.
-
-  Hypothesis CG : cookie_guard h0.
-
-  Lemma h3_inv : Forall field_inv h3.
-  Proof.
-    assert (B : Forall field_inv h2).
-    { eapply Forall_impl; [|exact h2_ok]. intros f [T V]. destruct (h2_value_vok _ V). unfold field_inv. auto. }
-    subst h3. unfold cookie_guard in CG. rewrite <- cookies_h2 in CG.
-    destruct (get_all N_COOKIE h2) as [|c1 [|c2 cs]] eqn:E; try exact B.
-    assert (J : vok (join_semi (c1 :: c2 :: cs))).
-    { apply join_vok; [|exact CG]. rewrite <- E. apply forall_get_all.
-      eapply Forall_impl; [|exact h2_ok]. intros f [_ V]. exact V. }
+    intros N2. subst h3. destruct (get_all N_COOKIE h1) as [|c1 [|c2 cs]] eqn:E; try reflexivity.
     unfold hset. change (lower N_COOKIE) with N_COOKIE.
-    destruct (hset_go N_COOKIE (join_semi (c1 :: c2 :: cs)) h2) as [res|] eqn:H.
-    - apply (hset_go_forall field_inv N_COOKIE (join_semi (c1 :: c2 :: cs)) h2 res B); [|exact H].
-      intros f Hf. rewrite Forall_forall in B. destruct (B f Hf) as (T & _ & _). destruct J. unfold field_inv. auto.
-    - apply Forall_app. split; [exact B|]. constructor; [|constructor]. destruct J. unfold field_inv. auto.
-  Qed.
-
-  Lemma filter_h3 k : k <> N_HOST -> k <> N_COOKIE -> filter (name_ci k) h3
-    = filter (name_ci k) h0 ++ (if chunked then filter (name_ci k) [(N_TE_CAP, CHUNKED)] else []).
-  Proof.
-    intros N1 N2. rewrite <- filter_h2 by exact N1. subst h3.
-    destruct (get_all N_COOKIE h2) as [|c1 [|c2 cs]] eqn:E; try reflexivity.
-    unfold hset. change (lower N_COOKIE) with N_COOKIE.
-    assert (NE : filter (name_ci N_COOKIE) h2 <> []).
+    assert (NE : filter (name_ci N_COOKIE) h1 <> []).
     { rewrite get_all_filter in E. change (lower N_COOKIE) with N_COOKIE in E. intros X. rewrite X in E. discriminate. }
-    destruct (hset_go_some N_COOKIE (join_semi (c1 :: c2 :: cs)) h2 NE) as [res H]. rewrite H.
+    destruct (hset_go_some N_COOKIE (join_semi (c1 :: c2 :: cs)) h1 NE) as [res H]. rewrite H.
     apply (hset_go_other _ _ k N2 _ _ H).
   Qed.
 
-  Lemma te_h3 : field_values r_te h3 = if chunked then [CHUNKED] else [].
+  Lemma filter_h3 k : k <> N_HOST -> k <> N_COOKIE -> filter (name_ci k) h3 = filter (name_ci k) h0.
+  Proof. intros N1 N2. rewrite filter_h3_gen by exact N2. apply filter_h1. exact N1. Qed.
+
+  Lemma te_h3 : field_values r_te h3 = [].
   Proof.
     rewrite field_values_filter. change r_te with TRANSFER_ENCODING. rewrite filter_h3 by discriminate.
-    rewrite <- filter_h1 by discriminate. rewrite te_h1. destruct chunked; reflexivity.
+    fold h0 in NoTE. rewrite get_all_filter in NoTE. change (lower TRANSFER_ENCODING) with TRANSFER_ENCODING in NoTE. exact NoTE.
   Qed.
 
   Lemma cl_h3 : field_values r_cl h3 = get_all CONTENT_LENGTH h0.
   Proof.
     rewrite field_values_filter, get_all_filter. change r_cl with CONTENT_LENGTH. change (lower CONTENT_LENGTH) with CONTENT_LENGTH.
-    rewrite filter_h3 by discriminate. destruct chunked; [cbn [filter name_ci fst]|]; rewrite ?app_nil_r; reflexivity.
-  Qed.
-
-  (* ---------- semantic characterisation of the written field list *)
-  Lemma filter_h3_gen k : k <> N_COOKIE -> filter (name_ci k) h3 = filter (name_ci k) h2.
-  Proof.
-    intros N2. subst h3. destruct (get_all N_COOKIE h2) as [|c1 [|c2 cs]] eqn:E; try reflexivity.
-    unfold hset. change (lower N_COOKIE) with N_COOKIE.
-    assert (NE : filter (name_ci N_COOKIE) h2 <> []).
-    { rewrite get_all_filter in E. change (lower N_COOKIE) with N_COOKIE in E. intros X. rewrite X in E. discriminate. }
-    destruct (hset_go_some N_COOKIE (join_semi (c1 :: c2 :: cs)) h2 NE) as [res H]. rewrite H.
-    apply (hset_go_other _ _ k N2 _ _ H).
+    rewrite filter_h3 by discriminate. reflexivity.
   Qed.
 
   Lemma host_h3 : field_values N_HOST h3
     = if negb (hcontains N_HOST_CAP h0) && match hq_authority r with [] => false | _ => true end
       then [hq_authority r] else field_values N_HOST h0.
   Proof.
-    rewrite !field_values_filter, filter_h3_gen by discriminate. rewrite h2_eq.
-    assert (X : filter (name_ci N_HOST) (if chunked then h1 ++ [(N_TE_CAP, CHUNKED)] else h1) = filter (name_ci N_HOST) h1).
-    { destruct chunked; [|reflexivity]. rewrite filter_app. cbn. apply app_nil_r. }
-    etransitivity; [apply f_equal; exact X|]. clear X. subst h1.
+    rewrite !field_values_filter, filter_h3_gen by discriminate. subst h1.
     destruct (negb (hcontains N_HOST_CAP h0)) eqn:E; cbn [andb]; [|reflexivity].
     destruct (hq_authority r) as [|a0 a]; [reflexivity|].
     apply negb_true_iff in E. apply hcontains_false in E. change (lower N_HOST_CAP) with N_HOST in E.
@@ -310,39 +235,49 @@ Section Fields.
   Lemma cookie_h3 : field_values N_COOKIE h3
     = match get_all N_COOKIE h0 with (_ :: _ :: _) as l => [join_semi l] | l => l end.
   Proof.
-    rewrite <- cookies_h2. rewrite field_values_filter. subst h3.
-    destruct (get_all N_COOKIE h2) as [|c1 [|c2 cs]] eqn:E; try (rewrite get_all_filter in E; exact E).
+    rewrite <- cookies_h1. rewrite field_values_filter. subst h3.
+    destruct (get_all N_COOKIE h1) as [|c1 [|c2 cs]] eqn:E; try (rewrite get_all_filter in E; exact E).
     unfold hset. change (lower N_COOKIE) with N_COOKIE.
-    assert (NE : filter (name_ci N_COOKIE) h2 <> []).
+    assert (NE : filter (name_ci N_COOKIE) h1 <> []).
     { rewrite get_all_filter in E. change (lower N_COOKIE) with N_COOKIE in E. intros X. rewrite X in E. discriminate. }
-    destruct (hset_go_some N_COOKIE (join_semi (c1 :: c2 :: cs)) h2 NE) as [res H]. rewrite H.
+    destruct (hset_go_some N_COOKIE (join_semi (c1 :: c2 :: cs)) h1 NE) as [res H]. rewrite H.
     apply (hset_go_self _ _ _ _ H).
   Qed.
 
-  Lemma F_host : field_values N_HOST (h1_fields r es)
+  Hypothesis CG : cookie_guard h0.
+
+  Lemma h3_inv : Forall field_inv h3.
+  Proof.
+    assert (B : Forall field_inv h1).
+    { eapply Forall_impl; [|exact h1_ok]. intros f [T V]. destruct (h2_value_vok _ V). unfold field_inv. auto. }
+    subst h3. unfold cookie_guard in CG. rewrite <- cookies_h1 in CG.
+    destruct (get_all N_COOKIE h1) as [|c1 [|c2 cs]] eqn:E; try exact B.
+    assert (J : vok (join_semi (c1 :: c2 :: cs))).
+    { apply join_vok; [|exact CG]. rewrite <- E. apply forall_get_all.
+      eapply Forall_impl; [|exact h1_ok]. intros f [_ V]. exact V. }
+    unfold hset. change (lower N_COOKIE) with N_COOKIE.
+    destruct (hset_go N_COOKIE (join_semi (c1 :: c2 :: cs)) h1) as [res|] eqn:H.
+    - apply (hset_go_forall field_inv N_COOKIE (join_semi (c1 :: c2 :: cs)) h1 res B); [|exact H].
+      intros f Hf. rewrite Forall_forall in B. destruct (B f Hf) as (T & _ & _). destruct J. unfold field_inv. auto.
+    - apply Forall_app. split; [exact B|]. constructor; [|constructor]. destruct J. unfold field_inv. auto.
+  Qed.
+
+  Lemma F_host : field_values N_HOST (h1_fields r)
     = if negb (hcontains N_HOST_CAP (hq_fields r)) && match hq_authority r with [] => false | _ => true end
       then [hq_authority r] else field_values N_HOST (hq_fields r).
   Proof. exact host_h3. Qed.
-  Lemma F_cookie : field_values N_COOKIE (h1_fields r es)
+  Lemma F_cookie : field_values N_COOKIE (h1_fields r)
     = match get_all N_COOKIE (hq_fields r) with (_ :: _ :: _) as l => [join_semi l] | l => l end.
   Proof. exact cookie_h3. Qed.
-  Lemma F_other k : k <> N_HOST -> k <> N_COOKIE -> k <> TRANSFER_ENCODING ->
-    filter (name_ci k) (h1_fields r es) = filter (name_ci k) (hq_fields r).
-  Proof.
-    intros N1 N2 N3. change (h1_fields r es) with h3. rewrite filter_h3 by assumption.
-    destruct chunked; [|apply app_nil_r]. cbn [filter]. unfold name_ci at 2. cbn [fst].
-    change (lower N_TE_CAP) with TRANSFER_ENCODING.
-    destruct (bytes_eqb TRANSFER_ENCODING k) eqn:E; [apply bytes_eqb_eq in E; congruence | apply app_nil_r].
-  Qed.
-
-  Lemma F_inv : Forall field_inv (h1_fields r es).
+  Lemma F_other k : k <> N_HOST -> k <> N_COOKIE ->
+    filter (name_ci k) (h1_fields r) = filter (name_ci k) (hq_fields r).
+  Proof. exact (filter_h3 k). Qed.
+  Lemma F_inv : Forall field_inv (h1_fields r).
   Proof. exact h3_inv. Qed.
-  Lemma F_te : field_values r_te (h1_fields r es) = if h1_chunked r es then [CHUNKED] else [].
+  Lemma F_te : field_values r_te (h1_fields r) = [].
   Proof. exact te_h3. Qed.
-  Lemma F_cl : field_values r_cl (h1_fields r es) = get_all CONTENT_LENGTH (hq_fields r).
+  Lemma F_cl : field_values r_cl (h1_fields r) = get_all CONTENT_LENGTH (hq_fields r).
   Proof. exact cl_h3. Qed.
-  Lemma F_chunked : h1_chunked r es = negb es && negb (hcontains CONTENT_LENGTH (hq_fields r)).
-  Proof. exact chunked_eq. Qed.
 End Fields.
 
 (* ---------- pseudo-header names are never one of the regular names we filter by *)
@@ -411,16 +346,18 @@ Definition strip_r (r : h2_request) : h2_request :=
 (* complement of the finding request-content-length-without-body: END_STREAM on HEADERS means no announced body *)
 Definition length_guard (sent : option bytes) (h : headers) (body : option bytes) : Prop :=
   body = None -> h2_expected_length sent h = Some None \/ h2_expected_length sent h = Some (Some 0%N).
+(* complement of the finding request-body-without-content-length: a non-empty body is announced by a content-length *)
+Definition framing_guard (h : headers) (body : option bytes) : Prop :=
+  content_of body <> [] -> h2_expected_length None h <> Some None.
 
 Theorem down_request_one_message pa h body out c :
   down_request pa h body None = OForward out c ->
-  length_guard None h body -> cookie_guard h ->
+  length_guard None h body -> framing_guard h body -> cookie_guard h ->
   exists r, parse_h2_request_headers pa h = Some r /\
     forall o, parse_requests o 2 out
-      = POk [mkRefReq (hq_method r) (hq_path r) V_HTTP11
-                      (h1_fields (strip_r r) (is_nil (content_of body))) (content_of body) []].
+      = POk [mkRefReq (hq_method r) (hq_path r) V_HTTP11 (h1_fields (strip_r r)) (content_of body) []].
 Proof.
-  unfold down_request. intros H LG CG.
+  unfold down_request. intros H LG FG CG.
   destruct (h2_validate false false h) eqn:V; [|discriminate]. cbn [negb] in H.
   destruct (h2_expected_length None h) as [expected|] eqn:EL; [|discriminate].
   destruct (h2_length_ok expected body false) eqn:LO; [|discriminate]. cbn [negb] in H.
@@ -429,12 +366,10 @@ Proof.
   injection H as <- <-. exists r. split; [reflexivity|]. intros o.
   destruct (parse_req_spec pa h r P) as (q & Eh & Fq & IM & IS & IP & IA & VM & VP).
   pose proof (h2_validate_all _ _ _ V) as VA.
-  (* validate_request *)
   unfold validate_request_transparent in VR.
   destruct (negb (mem (hq_scheme r) [V_HTTP; V_HTTPS; []])); [discriminate|].
   destruct (bytes_eqb (upper (hq_method r)) CONNECT) eqn:NC; [discriminate|].
   destruct (validate_ok _ VR) as (VN & NoTE & CLs).
-  (* the regular fields *)
   assert (VAf : Forall (fun f => h2_name_ok (fst f) = true /\ h2_value_ok (snd f) = true /\ h2_field_ok f = true) (hq_fields r)).
   { rewrite Eh in VA. apply Forall_app in VA. tauto. }
   pose proof (fieldok_of _ VAf VN) as F0.
@@ -455,36 +390,28 @@ Proof.
     cbn [r' strip_r hq_fields]. rewrite strip_expect_filter by discriminate.
     rewrite Eh, (filter_pseudo_prefix N_COOKIE q _ Fq eq_refl) in CG. exact CG. }
   assert (AuthOk' : hq_authority r' = [] \/ h2_value_ok (hq_authority r') = true) by exact AuthOk.
-  (* what h2 expects as body length *)
   assert (XL : values_exact CONTENT_LENGTH h = get_all CONTENT_LENGTH (hq_fields r)).
   { unfold values_exact. rewrite get_all_filter. change (lower CONTENT_LENGTH) with CONTENT_LENGTH. f_equal.
     rewrite Eh, (exact_pseudo_prefix CONTENT_LENGTH q _ Fq eq_refl). apply exact_filter_lower.
     eapply Forall_impl; [|exact F0]. intros f (_ & _ & X & _). exact X. }
-  unfold length_guard in LG. unfold h2_expected_length in EL, LG. rewrite XL in EL, LG.
-  (* the head *)
-  set (es := is_nil (content_of body)).
-  pose proof (F_inv r' es F0' NoTE' AuthOk' CG') as FI.
-  pose proof (F_te r' es NoTE') as TE3.
-  pose proof (F_cl r' es NoTE') as CL3.
-  pose proof (F_chunked r' es NoTE') as CH.
+  unfold length_guard in LG. unfold framing_guard in FG. rewrite EL in FG.
+  unfold h2_expected_length in EL, LG. rewrite XL in EL, LG.
+  pose proof (F_inv r' F0' AuthOk' CG') as FI.
+  pose proof (F_te r' NoTE') as TE3.
+  pose proof (F_cl r') as CL3.
   change (mkH2Req (hq_method r) (hq_scheme r) (hq_authority r) (hq_path r) (strip_expect (hq_fields r))) with r'.
   change (match body with Some b => b | None => [] end) with (content_of body).
   unfold h1_request_bytes.
-  change (match content_of body with [] => true | _ :: _ => false end) with es.
-  destruct (h1_of_h2_request r' es) as [head chunked] eqn:HH.
-  assert (Hhead : head = mkReq [] 0%N (hq_method r) (hq_scheme r) [] (hq_path r) V_HTTP11 (h1_fields r' es)).
-  { unfold h1_fields. rewrite HH. unfold h1_of_h2_request in HH. injection HH as <- _. reflexivity. }
-  assert (Hch0 : chunked = h1_chunked r' es) by (unfold h1_chunked; rewrite HH; reflexivity).
-  assert (Hch : chunked = negb es && negb (hcontains CONTENT_LENGTH (hq_fields r'))) by (rewrite Hch0; exact CH).
-  rewrite <- Hch0 in TE3. clear Hch0.
   assert (SC : send_chunked (hq_fields r') = false).
   { unfold send_chunked, hget_default, hget. rewrite NoTE'. reflexivity. }
-  rewrite SC, orb_false_r.
+  rewrite SC. rewrite app_nil_r.
+  set (head := h1_of_h2_request r').
+  assert (Hhead : head = mkReq [] 0%N (hq_method r) (hq_scheme r) [] (hq_path r) V_HTTP11 (h1_fields r')) by reflexivity.
   assert (TOK : forallb is_tchar (hq_method r) = true /\ hq_method r <> []).
   { unfold valid_method in VM. destruct (hq_method r) as [|m0 ms]; [discriminate|]. split; [|discriminate].
     rewrite forallb_forall in *. intros x Hx. rewrite <- method_char_is_tchar. auto. }
   assert (INV : Inv_req head).
-  { subst head. constructor; cbn [rq_method rq_version rq_headers].
+  { rewrite Hhead. constructor; cbn [rq_method rq_version rq_headers].
     - unfold is_token. destruct TOK as [T NE]. destruct (hq_method r); [congruence|exact T].
     - unfold req_target. cbn [rq_method rq_authority rq_path]. rewrite NC.
       unfold valid_path in VP. destruct (hq_path r) as [|p0 ps] eqn:EP; [discriminate|]. split; [discriminate|].
@@ -495,18 +422,16 @@ Proof.
     - reflexivity.
     - exact FI. }
   assert (TGT : req_target head = hq_path r).
-  { subst head. unfold req_target. cbn [rq_method rq_authority rq_path]. rewrite NC. reflexivity. }
-  (* the byte string starts with a token character *)
+  { rewrite Hhead. unfold req_target. cbn [rq_method rq_authority rq_path]. rewrite NC. reflexivity. }
   assert (START : forall tail, exists c s, assemble_request_head head ++ tail = c :: s /\ byte_eqb c rCR = false).
-  { intros tail. unfold assemble_request_head. rewrite assemble_request_line_eq. subst head. cbn [rq_method].
+  { intros tail. unfold assemble_request_head. rewrite assemble_request_line_eq, Hhead. cbn [rq_method].
     destruct TOK as [T NE]. destruct (hq_method r) as [|m0 ms]; [congruence|].
     exists m0. eexists. split; [cbn [app]; reflexivity|].
     simpl in T. apply andb_true_iff in T as [T _]. pose proof (tchar_not_cr m0) as K. rewrite T in K. simpl in K.
     apply negb_true_iff in K. exact K. }
-  set (fields := h1_fields r' es) in *.
-  assert (HF : rq_headers head = fields /\ rq_method head = hq_method r /\ rq_version head = V_HTTP11) by (subst head; auto).
+  set (fields := h1_fields r') in *.
+  assert (HF : rq_headers head = fields /\ rq_method head = hq_method r /\ rq_version head = V_HTTP11) by (rewrite Hhead; auto).
   destruct HF as (HF1 & HF2 & HF3).
-  (* one step of the reference reader, for each framing *)
   assert (STEP : forall tail bl, request_body_length V_HTTP11 fields = Some bl ->
             read_body o bl tail = POk (content_of body, [], []) ->
             parse_requests o 2 (assemble_request_head head ++ tail)
@@ -514,27 +439,16 @@ Proof.
   { intros tail bl BL RB. destruct (START tail) as (c0 & s0 & E0 & C0).
     cbn [parse_requests]. rewrite E0. unfold parse_request. rewrite (skip_empty_first c0 s0 C0), <- E0.
     rewrite (head_roundtrip_request o head tail INV), TGT, HF1, HF2, HF3, BL, RB. reflexivity. }
+  replace (match content_of body with [] => [] | _ :: _ => content_of body end) with (content_of body)
+    by (destruct (content_of body); reflexivity).
   destruct CLs as [NoCL | [cl OneCL]].
-  - (* no content-length *)
+  - (* no content-length: the guard says there is no body *)
     rewrite NoCL in EL. cbn [cl_scan] in EL. injection EL as <-.
-    assert (HC : hcontains CONTENT_LENGTH (hq_fields r') = false) by (unfold hcontains; rewrite CLeq, NoCL; reflexivity).
-    rewrite HC in Hch. cbn [negb] in Hch. rewrite andb_true_r in Hch.
-    destruct (content_of body) as [|b0 bs] eqn:EC.
-    + cbn [is_nil] in es. subst es. cbn [negb] in Hch. subst chunked. cbn [app orb]. rewrite app_nil_r.
-      rewrite <- (app_nil_r (assemble_request_head head)).
-      apply (STEP [] BLZero); [|reflexivity].
-      unfold request_body_length, fields_body_length. rewrite TE3, CL3, CLeq, NoCL. reflexivity.
-    + cbn [is_nil] in es. subst es. cbn [negb] in Hch. subst chunked. cbn [orb].
-      apply (STEP (emit_chunk (b0 :: bs) ++ LAST_CHUNK) BLChunked).
-      * unfold request_body_length, fields_body_length. rewrite TE3. reflexivity.
-      * assert (NE : Forall (fun c : bytes => c <> []) [b0 :: bs]) by (constructor; [discriminate | constructor]).
-        pose proof (body_reframe_read_body o [b0 :: bs] [] NE) as K.
-        cbn [map concat] in K. rewrite !app_nil_r in K. exact K.
-  - (* one content-length field *)
-    rewrite OneCL in EL, LG. cbn [cl_scan] in EL, LG.
+    destruct (content_of body) as [|b0 bs] eqn:EC; [|exfalso; apply FG; [discriminate|reflexivity]].
+    apply (STEP [] BLZero); [|reflexivity].
+    unfold request_body_length, fields_body_length. rewrite TE3, CL3, CLeq, NoCL. reflexivity.
+  - rewrite OneCL in EL, LG. cbn [cl_scan] in EL, LG.
     destruct (all_digits cl) eqn:AD; [|discriminate]. injection EL as <-.
-    assert (HC : hcontains CONTENT_LENGTH (hq_fields r') = true) by (unfold hcontains; rewrite CLeq, OneCL; reflexivity).
-    rewrite HC in Hch. cbn [negb] in Hch. rewrite andb_false_r in Hch. subst chunked.
     assert (BL : request_body_length V_HTTP11 fields = Some (BLLen (digits_value cl))).
     { unfold request_body_length, fields_body_length. rewrite TE3, CL3, CLeq, OneCL, (list_elements_digits cl AD).
       cbn [all_same_dec]. rewrite (parse_dec_digits cl AD). reflexivity. }
@@ -542,9 +456,7 @@ Proof.
     { destruct body as [b|]; cbn [content_of].
       - cbn [h2_length_ok] in LO. apply N.eqb_eq in LO. exact LO.
       - destruct (LG eq_refl) as [X|X]; [discriminate|]. injection X as X. rewrite X. reflexivity. }
-    rewrite LEN in BL. rewrite app_nil_r.
-    replace (match content_of body with [] => [] | _ :: _ => content_of body end) with (content_of body)
-      by (destruct (content_of body); reflexivity).
+    rewrite LEN in BL.
     apply (STEP (content_of body) _ BL).
     pose proof (body_reframe_length o (content_of body) []) as K. rewrite app_nil_r in K. exact K.
 Qed.
